@@ -2,6 +2,7 @@ package an
 
 import (
 	"fmt"
+	"go/token"
 	"sort"
 	"strings"
 
@@ -147,6 +148,8 @@ func runC08(w *World) *Result {
 	_ = rr
 	EscapeOrderRule(w, "bash", r, "R-C08-escape")
 	EscapeOrderRule(w, "batch", r, "R-C08-escape")
+	r.Rule("R-C08-lexdecode", "in the loop that decodes string literals, every character copied verbatim comes from the position that was probed for an escape sequence in the same iteration", 1)
+	LexDecodeRule(w, r, "R-C08-lexdecode")
 	r.Rule("R-C08-state", "converted literal text is not kept on the transpiler object from one target to the next (no state across Transpile calls)", 1)
 	c14TranspileState(w, r, "R-C08-state")
 	b, err := BuildBackend(w, "bash")
@@ -477,5 +480,144 @@ func EscapeOrderRule(w *World, role string, r *Result, rule string) {
 			ds = append(ds, fmt.Sprintf("%q→%q", a.old, a.new))
 		}
 		r.Ok(rule, key, w.Pos(fn.Pos()), "replacement chain "+strings.Join(ds, ", ")+": no step rewrites text introduced by an earlier one")
+	}
+}
+
+// LexDecodeRule: the lexer's literal decoder alternates between "an escape sequence starts
+// here: decode it" and "copy this character". The copy is only right for a character that
+// the escape probe has looked at: a character fetched from another position (the one behind
+// a decoded sequence) and copied without a new probe turns a following escape sequence into
+// literal backslash text ("\t\t" becomes TAB \ t).  Decided on SSA: the position of every
+// verbatim-copied character is the very position value the probe was applied to.
+func LexDecodeRule(w *World, r *Result, rule string) {
+	ce := newCharEngine(w)
+	n := 0
+	for _, fn := range w.Funcs("lexer") {
+		loops := naturalLoops(fn)
+		for _, b := range fn.Blocks {
+			for _, ins := range b.Instrs {
+				uq, ok := ins.(*ssa.Call)
+				if !ok || uq.Call.StaticCallee() == nil || uq.Call.StaticCallee().String() != "strconv.Unquote" {
+					continue
+				}
+				hdr := loops[b]
+				if hdr == nil {
+					continue
+				}
+				n++
+				key := fmt.Sprintf("lexdecode:%s#%d", FuncName(fn), n)
+				pos := w.Pos(uq.Pos())
+				// the probe: a regex applied to source[q:] whose match feeds the decoder
+				var probePos, probeSrc ssa.Value
+				var findProbe func(v ssa.Value, d int)
+				seenV := map[ssa.Value]bool{}
+				findProbe = func(v ssa.Value, d int) {
+					if v == nil || d > 8 || seenV[v] || probePos != nil {
+						return
+					}
+					seenV[v] = true
+					switch x := v.(type) {
+					case *ssa.Call:
+						if callee := x.Call.StaticCallee(); callee != nil && strings.HasPrefix(callee.String(), "(*regexp.Regexp).Find") {
+							for _, a := range x.Call.Args {
+								if sl, ok := a.(*ssa.Slice); ok && isString(sl.X.Type()) && sl.Low != nil && sl.High == nil {
+									probePos, probeSrc = sl.Low, sl.X
+								}
+							}
+							return
+						}
+						// formatting wrappers around the match (Sprintf(`"%s"`, match))
+						for _, a := range x.Call.Args {
+							findProbe(a, d+1)
+						}
+					case *ssa.Slice:
+						findProbe(x.X, d+1)
+					case *ssa.Alloc:
+						for _, ref := range *x.Referrers() {
+							if ia, ok := ref.(*ssa.IndexAddr); ok {
+								for _, rr := range *ia.Referrers() {
+									if st, ok := rr.(*ssa.Store); ok {
+										findProbe(st.Val, d+1)
+									}
+								}
+							}
+						}
+					case *ssa.MakeInterface:
+						findProbe(x.X, d+1)
+					case *ssa.Phi:
+						for _, e := range x.Edges {
+							findProbe(e, d+1)
+						}
+					case *ssa.BinOp:
+						findProbe(x.X, d+1)
+						findProbe(x.Y, d+1)
+					case *ssa.Extract:
+						findProbe(x.Tuple, d+1)
+					case *ssa.UnOp:
+						findProbe(x.X, d+1)
+					case *ssa.IndexAddr:
+						findProbe(x.X, d+1)
+					}
+				}
+				findProbe(uq.Call.Args[0], 0)
+				if probePos == nil {
+					r.Bad(rule, key, pos, "cannot find the escape probe (a regular expression applied to the rest of the source) whose match is decoded")
+					continue
+				}
+				// verbatim copies inside the same loop: acc + <one character of the source>
+				body := loopBody(hdr)
+				var bad []string
+				copies := 0
+				for blk := range body {
+					for _, i2 := range blk.Instrs {
+						add, ok := i2.(*ssa.BinOp)
+						if !ok || add.Op != token.ADD || !isString(add.Type()) {
+							continue
+						}
+						var positions []ssa.Value
+						var collect func(v ssa.Value, d int) bool
+						collect = func(v ssa.Value, d int) bool {
+							if d > 4 {
+								return false
+							}
+							if ph, ok := v.(*ssa.Phi); ok {
+								for _, e := range ph.Edges {
+									if !collect(e, d+1) {
+										return false
+									}
+								}
+								return len(ph.Edges) > 0
+							}
+							sv, pv, _, ok := ce.operand(v)
+							if !ok || !(sv == probeSrc || rootOf(sv, 0) == rootOf(probeSrc, 0)) {
+								return false
+							}
+							positions = append(positions, pv)
+							return true
+						}
+						if !collect(add.Y, 0) {
+							continue
+						}
+						copies++
+						for _, pv := range positions {
+							if pv != probePos {
+								bad = append(bad, w.Pos(add.Pos()))
+							}
+						}
+					}
+				}
+				switch {
+				case len(bad) > 0:
+					r.Bad(rule, key, pos, fmt.Sprintf("a character is copied verbatim (%s) from a position other than the one the escape probe was applied to in that iteration: an escape sequence directly behind another one is taken as literal text", strings.Join(uniq(bad), ", ")))
+				case copies == 0:
+					r.Bad(rule, key, pos, "no verbatim copy of a source character found in the decoding loop")
+				default:
+					r.Ok(rule, key, pos, fmt.Sprintf("%d verbatim copy site(s) take the character at the probed position", copies))
+				}
+			}
+		}
+	}
+	if n == 0 {
+		r.Bad(rule, "lexdecode:none", "-", "no escape decoding (strconv.Unquote) found in the lexer")
 	}
 }
